@@ -378,9 +378,28 @@ HPRE = PRE + "\nDefinition c11_names : list str := %s." % clist([cstr(n) for n i
 
 # ---- generators
 
-def alphabet_small():
-    """The reduced alphabet of the exhaustive histories: 2 instances (DocumentCache with a
-    duration of 10, ObjectCache that never expires) x 2 ids x 2 objects."""
+def alphabet_shared():
+    """Exhaustive histories: two DocumentCache instances sharing the directory (durations 10
+    and never), one id, two objects."""
+    ops = []
+    for i in (0, 1):
+        ops.append(("put", None, i, "a", 0))
+        ops.append(("put", None, i, "a", 1))
+        ops.append(("put", ("write", 7, i == 0, i == 1), i, "a", 1))
+        ops.append(("get", None, i, "a"))
+        ops.append(("purge", i, "a"))
+    ops.append(("clear", 0))
+    ops.append(("advance", 10))
+    ops.append(("advance", 1))
+    ops.append(("open", 0, "KXml", 10))
+    ops.append(("foreign", "0.0", [(entry_name("KXml", "a"), ("ser", "KXml", 2)), ("notes.txt", ("raw", b"keep me")),
+                                    ("sudsfoo", ("raw", b"x"))]))
+    return [("open", 0, "KXml", 10), ("open", 1, "KXml", 0)], ops
+
+
+def alphabet_mixed():
+    """Exhaustive histories: a DocumentCache (duration 10) and an ObjectCache (never) in one
+    directory, two ids."""
     ops = []
     for i, kind, dur in ((0, "KXml", 10), (1, "KPx", 0)):
         ops.append(("open", i, kind, dur))
@@ -396,7 +415,7 @@ def alphabet_small():
     ops.append(("foreign", "0.0", [(entry_name("KXml", "a"), ("ser", "KXml", 2)),
                                     (entry_name("KPx", "b"), ("raw", b"garbage")),
                                     ("notes.txt", ("raw", b"keep me")), ("sudsfoo", ("raw", b"x"))]))
-    return ops
+    return [a for a in ops if a[0] == "open"], ops
 
 
 def random_fault_put(rng, kind, objects, o):
@@ -483,114 +502,20 @@ def gen_histories(ck, objects, version):
     rng = ck.rng
     thorough = ck.tier == "thorough"
     hs = []
-    alpha = alphabet_small()
-    depth = 4 if thorough else 3
-    pre = [a for a in alpha if a[0] == "open"]
-    # exhaustive: both instances opened, then every sequence over the alphabet
-    for seq in itertools.product(alpha, repeat=depth):
-        hs.append(("exhaustive", list(pre) + list(seq)))
+    pre, alpha = alphabet_shared()
+    for seq in itertools.product(alpha, repeat=4 if thorough else 3):
+        hs.append(("exhaustive-shared", list(pre) + list(seq)))
     if thorough:
-        core = [a for a in alpha if a[0] != "open" and not (a[0] in ("put", "get") and a[3] == "b")]
+        core = [a for a in alpha if a[0] not in ("open", "foreign", "clear")
+                and not (a[0] == "put" and a[1] is None and a[4] == 1)]
         for seq in itertools.product(core, repeat=5):
             hs.append(("exhaustive-5", list(pre) + list(seq)))
-    nrand = 6000 if thorough else 1400
-    for _ in range(nrand):
+    pre, alpha = alphabet_mixed()
+    for seq in itertools.product(alpha, repeat=3 if thorough else 2):
+        hs.append(("exhaustive-mixed", list(pre) + list(seq)))
+    for _ in range(8000 if thorough else 1500):
         hs.append(("random", random_history(rng, objects, 12, version)))
     return hs
-
-
-# ---------------------------------------------------------------------------
-# the check
-# ---------------------------------------------------------------------------
-
-def check_histories(ck, objects, version):
-    hs = gen_histories(ck, objects, version)
-    terms, keep = [], []
-    for k, (group, ops) in enumerate(hs):
-        ops = annotate(ops)
-        loc = os.path.join(ROOT, "h%d" % k, "cache")
-        obs = run_history(ops, objects, loc, version)
-        shutil.rmtree(os.path.dirname(loc), ignore_errors=True)
-        terms.append(c_hcase(ops, obs, objects, version))
-        keep.append((group, ops, obs))
-        gets = [r for (o, (r, _)) in zip(ops, obs) if o[0] == "get"]
-        ck.seen(repr(ops), nontrivial=any(isinstance(r, tuple) for r in gets))
-        ck.count("history:" + group)
-        ck.count("history-ops", len(ops))
-        for o, (r, _) in zip(ops, obs):
-            if o[0] == "get":
-                ck.count("get:" + (r if not isinstance(r, tuple) else "hit"))
-            if o[0] == "put" and o[1]:
-                ck.count("put-fault:" + o[1][0])
-    for i in (0, len(hs) // 2, len(hs) - 1):
-        ck.sample({"history": [list(map(repr, o[:5])) for o in keep[i][1]],
-                   "results": [r if not isinstance(r, tuple) else "object %d" % r[1] for r, _ in keep[i][2]]})
-    res = ck.run_cases("hist", HPRE, "hcase", terms,
-                       ["c11_hist_wf", "c11_hist_agrees", "c11_hist_spec_ok"], shard=150)
-    if res["c11_hist_wf"]:
-        raise RuntimeError("harness generated an ill-formed history: %r" % (keep[res["c11_hist_wf"][0]][1],))
-    return keep, set(res["c11_hist_agrees"]), set(res["c11_hist_spec_ok"])
-
-
-def describe_history(ops):
-    return "; ".join(" ".join(str(x) for x in o[:5]) for o in ops)
-
-
-def first_bad_get(ops, obs):
-    for o, (r, _) in zip(ops, obs):
-        if r == "RRaise":
-            return "C11:cache-operation-raises", "a cache operation raised: %s" % (o[:5],)
-    return ("C11:lookup-returns-other-than-latest-fresh-store",
-            "a lookup returned an object that is not the most recent fresh one stored under that id")
-
-
-def run(ck):
-    common.force_repo_path()
-    logging.disable(logging.CRITICAL)
-    import suds
-    import suds.client      # noqa: F401  (completes the package: suds.metrics etc.)
-    version = suds.__version__
-    shutil.rmtree(ROOT, ignore_errors=True)
-    os.makedirs(ROOT)
-    try:
-        _run(ck, version)
-    finally:
-        shutil.rmtree(ROOT, ignore_errors=True)
-
-
-def _run(ck, version):
-    ck.trusted = [
-        "Coq 8.16.1 kernel + vm_compute (correspondence evaluation); no native_compute",
-        "correspondence harness harness/c11.py: shims for suds.cache's os.path.getctime / datetime.now / "
-        "open (logical clock, fault and crash injection), object interning by value",
-        "modelled, not verified: the kernel's file semantics (ctime = time of the last open for writing, "
-        "in-place truncation), pickle and the SAX parser as deser, real multi-process timing",
-    ]
-    ck.notes = []
-    proof_ok = ck.prove(THEOREMS) if THEOREMS else True
-    objects = make_objects()
-    keep, bad_model, bad_spec = check_histories(ck, objects, version)
-    for i in sorted(bad_spec, key=lambda i: len(keep[i][1]))[:1]:
-        group, ops, obs = keep[i]
-        key, what = first_bad_get(ops, obs)
-        ck.failing_input(key, "%s: %s" % (what, describe_history(ops)),
-                         {"kind": "history", "ops": ops, "observed": obs})
-    ck.rule = "histories"
-    if not proof_ok:
-        ck.unproved("proof obligation of C11 no longer checks: " + ck.proof_log[-1500:],
-                    {"theorems": THEOREMS, "log": ck.proof_log[-3000:]})
-    only_model = sorted(bad_model - bad_spec, key=lambda i: len(keep[i][1]))
-    if only_model:
-        group, ops, obs = keep[only_model[0]]
-        ck.unproved("model/implementation correspondence of C11 no longer holds for cache histories: %s"
-                    % describe_history(ops),
-                    {"kind": "history", "ops": ops, "observed": obs, "model_disagreements": len(only_model)})
-
-
-def replay(ck, payload):
-    common.force_repo_path()
-    print(payload.get("what"))
-    return 0
 
 
 # ---------------------------------------------------------------------------
@@ -739,20 +664,6 @@ def make_store(docs, log):
     return s
 
 
-def make_transport(log):
-    import suds.transport
-
-    class NoTransport(suds.transport.Transport):
-        def open(self, request):
-            log.transport += 1
-            raise suds.transport.TransportError("no network in this check", 404)
-
-        def send(self, request):
-            log.transport += 1
-            raise suds.transport.TransportError("no network in this check", 404)
-    return NoTransport()
-
-
 def call_args(client, op):
     if op == "f":
         return ("x<y",), {}
@@ -773,10 +684,68 @@ def person_ns(client):
     return "urn:main"
 
 
-def fingerprint(client, ops, style, tns_types):
-    """What a client does, as a comparable value: operations and parameter types, factory
-    objects, request envelopes (namespace infosets) and decoded canned replies."""
+# ---------------------------------------------------------------------------
+# client scenarios over one cache directory
+# ---------------------------------------------------------------------------
+CPRE = "From SV Require Import Lib.Base C11.Model C11.Reader."
+
+OPTSETS = {
+    "base": {},
+    "nounwrap": {"unwrap": False},
+    "pretty": {"prettyxml": True, "xstq": False, "sortNamespaces": False},
+    "loc": {"location": "http://elsewhere.invalid/e", "port": "P2"},
+    "retxml": {"retxml": True, "unwrap": False},
+    "nofaults": {"faults": False, "prefixes": True, "extraArgumentErrors": False},
+}
+
+
+def opt_unwrap(name):
+    return OPTSETS[name].get("unwrap", True)
+
+
+def rec_cache_class(kind, cachelog):
+    import suds.cache
+    base = {"KPx": suds.cache.ObjectCache, "KXml": suds.cache.DocumentCache}[kind]
+
+    class Rec(base):
+        def get(self, id):
+            cachelog.append(("get", id))
+            return base.get(self, id)
+
+        def put(self, id, obj):
+            cachelog.append(("put", id))
+            return base.put(self, id, obj)
+    return Rec
+
+
+def invoking_transport(log, style, tns_types, sent):
+    import suds.transport
+
+    class T(suds.transport.Transport):
+        def open(self, request):
+            log.transport += 1
+            raise suds.transport.TransportError("no network in this check", 404)
+
+        def send(self, request):
+            act = request.headers.get("SOAPAction", b"")
+            act = act.decode() if isinstance(act, bytes) else act
+            op = act.strip('"').replace("act-", "")
+            sent.append((request.url, act, request.message))
+            return suds.transport.Reply(200, {}, canned_reply(op, style, tns_types))
+    return T()
+
+
+def body_wrapped(client):
+    try:
+        return bool(client.wsdl.services[0].ports[0].binding.operations["f"].soap.input.body.wrapped)
+    except Exception:
+        return False
+
+
+def behaviour(client, member, sent):
+    """fingerprint through real invocations (recording transport with canned replies)"""
     from . import sudsutil
+    docs, ops, style, tns_types = member
     fp = {}
     meths = []
     for sd in client.sd:
@@ -793,23 +762,758 @@ def fingerprint(client, ops, style, tns_types):
         except Exception as e:
             objs.append((q, "raises " + type(e).__name__))
     fp["factory"] = tuple(objs)
-    envs, reps = [], []
+    calls = []
     for op in ops:
+        del sent[:]
         try:
             a, kw = call_args(client, op)
-            ctx = getattr(client.service, op)(*a, **kw)
-            env = ctx.envelope
-            hdr = tuple(sorted((k, v if isinstance(v, str) else v.decode()) for k, v in
-                               ctx.client.headers().items())) if hasattr(ctx, "client") else ()
-            envs.append((op, sudsutil.expat_parse(env).canon(strip_ws=False), env.count(b"\n") > 0,
-                         ctx.client.location() if hasattr(ctx, "client") else None, hdr))
-            try:
-                rep = ctx.process_reply(canned_reply(op, style, tns_types), 200)
-                reps.append((op, rep if isinstance(rep, (bytes, str, int, type(None))) else str(rep)))
-            except Exception as e:
-                reps.append((op, "raises " + type(e).__name__))
+            rep = getattr(client.service, op)(*a, **kw)
+            rep = rep if isinstance(rep, (bytes, str, int, type(None))) else str(rep)
         except Exception as e:
-            envs.append((op, "raises " + type(e).__name__ + ": " + str(e)[:80]))
-    fp["envelopes"] = tuple(envs)
-    fp["replies"] = tuple(reps)
+            rep = "raises " + type(e).__name__ + ": " + str(e)[:80]
+        wire = []
+        for url, act, msg in sent:
+            try:
+                tree = sudsutil.expat_parse(msg).canon(strip_ws=True)
+            except Exception:
+                tree = msg
+            wire.append((url, act, tree, msg.count(b"\n") > 0))
+        calls.append((op, tuple(wire), rep))
+    fp["calls"] = tuple(calls)
     return fp
+
+
+def listing(location):
+    try:
+        return sorted(os.listdir(location))
+    except OSError:
+        return []
+
+
+def build_client(member, location, kind, dur, pol, optname, world_fault=None):
+    """-> dict(outcome, fetched, transport, fp, wrapped, reply_cached, exc)"""
+    import suds.client
+    docs, ops, style, tns_types = member
+    log = FetchLog()
+    sent = []
+    cachelog = []
+    kwargs = dict(OPTSETS[optname])
+    kwargs.update(documentStore=make_store(docs, log), transport=invoking_transport(log, style, tns_types, sent))
+    if kind is None:
+        kwargs["cache"] = None
+    else:
+        kwargs["cache"] = rec_cache_class(kind, cachelog)(location, seconds=dur)
+        kwargs["cachingpolicy"] = pol
+    r = dict(fetched=None, transport=False, fp=None, wrapped=False, reply_cached=False, exc=None,
+             options_current=False, client=None)
+    try:
+        client = suds.client.Client("suds://main.wsdl", **kwargs)
+    except Exception as e:
+        r["exc"] = "%s: %s" % (type(e).__name__, e)
+        r["fetched"] = list(map(str, log.urls))
+        r["transport"] = log.transport > 0
+        return r
+    r["client"] = client
+    r["fetched"] = list(map(str, log.urls))
+    try:
+        cur = client.wsdl.options is client.options
+        for imp in client.wsdl.imports:
+            if imp.imported is not None:
+                cur = cur and getattr(imp.imported, "options", None) is client.options
+        r["options_current"] = bool(cur)
+    except Exception:
+        r["options_current"] = False
+    r["wrapped"] = body_wrapped(client)
+    before = (len(cachelog), listing(location))
+    r["fp"] = behaviour(client, member, sent)
+    r["reply_cached"] = (len(cachelog), listing(location)) != before
+    r["transport"] = log.transport > 0
+    return r
+
+
+def url_table(member):
+    """The urls a load opens, in order (from an uncached load), interned from 1; md5 per url."""
+    import hashlib
+    ref = build_client(member, None, None, 0, 0, "base")
+    urls = []
+    for u in ref["fetched"]:
+        if u not in urls:
+            urls.append(u)
+    ids = dict((u, i + 1) for i, u in enumerate(urls))
+    md5 = dict((u, hashlib.md5(u.encode()).hexdigest()) for u in urls)
+    imps = [imp.imported is not None for imp in ref["client"].wsdl.imports]
+    return ref, urls, ids, md5, imps, [ids[u] for u in ref["fetched"]]
+
+
+def scenario_names(urls, md5):
+    names = ["version"]
+    for u in urls:
+        names.append("suds-%s-document.px" % md5[u])
+        names.append("suds-%s-document.xml" % md5[u])
+    names.append("suds-%s-wsdl.px" % md5[urls[0]])
+    names.append("suds-%s-wsdl.xml" % md5[urls[0]])
+    return names
+
+
+def run_scenario(member, sc, location, refs):
+    """sc: list of ("client", kind, dur, pol, optname) | ("plant", name, n, zf) | ("remove", name) |
+    ("advance", d).  refs: memo optname -> uncached client result."""
+    world = World()
+    world.install()
+    out = []
+    try:
+        for op in sc:
+            obs = None
+            if op[0] == "client":
+                _, kind, dur, pol, optname = op
+                if optname not in refs:
+                    world.uninstall()
+                    try:
+                        refs[optname] = build_client(member, None, None, 0, 0, optname)
+                    finally:
+                        world.install()
+                obs = build_client(member, location, kind, dur, pol, optname)
+                obs["ref_wrapped"] = refs[optname]["wrapped"]
+                obs["fp_same"] = obs["fp"] is not None and obs["fp"] == refs[optname]["fp"]
+                obs.pop("client", None)
+            elif op[0] == "plant":
+                p = os.path.join(location, op[1])
+                try:
+                    with open(p, "rb") as f:
+                        data = f.read()
+                except OSError:
+                    data = b"new"
+                n = min(op[2], max(len(data) - 1, 0))
+                os.makedirs(location, exist_ok=True)
+                world.plant(p, data[:n] + (b"\0" * (len(data) - n) if op[3] else b""))
+            elif op[0] == "remove":
+                try:
+                    os.remove(os.path.join(location, op[1]))
+                except OSError:
+                    pass
+            elif op[0] == "advance":
+                world.clock += op[1]
+            out.append((obs, listing(location)))
+    finally:
+        world.uninstall()
+    return out
+
+
+def c_world(ids, urls, imps, opened, docstyle):
+    return "(mkworld %s %s %s %s)" % (cN(ids[urls[0]]), clist([cN(i) for i in opened], "N"),
+                                      clist([cbool(b) for b in imps], "bool"), cbool(docstyle))
+
+
+def c_cop(op):
+    if op[0] == "client":
+        return "(CClient %s %s %s %s)" % (op[1], cZ(op[2]), cN(op[3]), cbool(opt_unwrap(op[4])))
+    if op[0] == "plant":
+        return "(CPlant %s [9; 9]%%N)" % cstr(op[1])
+    if op[0] == "remove":
+        return "(CRemove %s)" % cstr(op[1])
+    return "(CAdvance %s)" % cZ(op[1])
+
+
+def c_cobs(obs, ids):
+    if obs is None:
+        return "(@None cobs)"
+    fetched = clist([cN(ids.get(u, 999)) for u in obs["fetched"]], "N")
+    if obs["exc"] is not None:
+        out = "CRaise"
+        return "(Some (mkcobs %s %s CRaise false false false))" % (fetched, cbool(obs["transport"]))
+    out = "(COk %s %s)" % (cbool(obs["options_current"]), cbool(obs["wrapped"]))
+    return "(Some (mkcobs %s %s %s %s %s %s))" % (fetched, cbool(obs["transport"]), out, cbool(obs["ref_wrapped"]),
+                                                   cbool(obs["fp_same"]), cbool(obs["reply_cached"]))
+
+
+def c_ccase(version, member_info, quirks, sc, observed):
+    ref, urls, ids, md5, imps, opened, docstyle, names = member_info
+    return "(mkccase %s %s %s (%s, %s) %s %s %s)" % (
+        cstr(version),
+        clist(["(%s, %s)" % (cN(ids[u]), cstr(md5[u])) for u in urls], "N * str"),
+        c_world(ids, urls, imps, opened, docstyle),
+        cbool(quirks[0]), cbool(quirks[1]),
+        clist([c_cop(o) for o in sc], "cop"),
+        clist([cstr(n) for n in names], "str"),
+        clist(["(%s, %s)" % (c_cobs(o, ids), clist([cbool(n in lst) for n in names], "bool"))
+               for o, lst in observed], "option cobs * list bool"))
+
+
+# ---------------------------------------------------------------------------
+# the check
+# ---------------------------------------------------------------------------
+
+def check_histories(ck, objects, version):
+    hs = gen_histories(ck, objects, version)
+    terms, keep = [], []
+    for k, (group, ops) in enumerate(hs):
+        ops = annotate(ops)
+        loc = os.path.join(ROOT, "h%d" % k, "cache")
+        obs = run_history(ops, objects, loc, version)
+        shutil.rmtree(os.path.dirname(loc), ignore_errors=True)
+        terms.append(c_hcase(ops, obs, objects, version))
+        keep.append((group, ops, obs))
+        gets = [r for (o, (r, _)) in zip(ops, obs) if o[0] == "get"]
+        ck.seen(repr(ops), nontrivial=any(isinstance(r, tuple) for r in gets))
+        ck.count("history:" + group)
+        ck.count("history-ops", len(ops))
+        for o, (r, _) in zip(ops, obs):
+            if o[0] == "get":
+                ck.count("get:" + (r if not isinstance(r, tuple) else "hit"))
+            if o[0] == "put" and o[1]:
+                ck.count("put-fault:" + o[1][0])
+    for i in (0, len(hs) // 2, len(hs) - 1):
+        ck.sample({"history": [list(map(repr, o[:5])) for o in keep[i][1]],
+                   "results": [r if not isinstance(r, tuple) else "object %d" % r[1] for r, _ in keep[i][2]]})
+    res = ck.run_cases("hist", HPRE, "hcase", terms,
+                       ["c11_hist_wf", "c11_hist_agrees", "c11_hist_spec_ok"], shard=350)
+    if res["c11_hist_wf"]:
+        raise RuntimeError("harness generated an ill-formed history: %r" % (keep[res["c11_hist_wf"][0]][1],))
+    return keep, set(res["c11_hist_agrees"]), set(res["c11_hist_spec_ok"])
+
+
+# ---- torn-write sweep over real cached entries
+
+SRES = ("SNone", "SSame", "SOther", "SRaised")
+
+
+def sweep_members(ck):
+    if ck.tier == "thorough":
+        return [(0, 1, "doc"), (2, 3, "doc"), (4, 3, "rpc"), (6, 2, "doc")]
+    return [(0, 1, "doc"), (4, 2, "doc")]
+
+
+def sweep_offsets(ck, n, full):
+    if full or n <= 3000:
+        return list(range(n + 1))
+    offs = set(range(0, 200)) | set(range(n - 200, n + 1))
+    offs |= set(range(0, n, max(1, n // 250)))
+    offs |= set(ck.rng.randrange(n) for _ in range(300))
+    return sorted(offs)
+
+
+def check_sweep(ck):
+    import suds.cache
+    cases, meta = [], []
+    for mi, (shape, nops, style) in enumerate(sweep_members(ck)):
+        docs, ops, tns_types = family_member(shape, nops, style)
+        member = (docs, ops, style, tns_types)
+        for kind, pol in (("KXml", 0), ("KPx", 0), ("KPx", 1)):
+            loc = os.path.join(ROOT, "sweep%d%s%d" % (mi, kind, pol))
+            build_client(member, loc, kind, 0, pol, "base")
+            cls = suds.cache.ObjectCache if kind == "KPx" else suds.cache.DocumentCache
+            for fn in sorted(os.listdir(loc)):
+                if fn == "version":
+                    continue
+                path = os.path.join(loc, fn)
+                with open(path, "rb") as f:
+                    data = f.read()
+                id = fn[len("suds-"):].rsplit(".", 1)[0]
+                cache = cls(loc)
+                orig = cache.get(id)
+
+                def classify(call):
+                    try:
+                        got = call()
+                    except Exception:
+                        return "SRaised"
+                    if got is None:
+                        return "SNone"
+                    try:
+                        same = (pickle.dumps(got, 2) == pickle.dumps(orig, 2)) if kind == "KPx" \
+                            else str(got) == str(orig)
+                    except Exception:
+                        same = False
+                    return "SSame" if same else "SOther"
+                full = ck.tier == "thorough"
+                for off in sweep_offsets(ck, len(data), full):
+                    for zf in (False, True):
+                        if off == len(data) and zf:
+                            continue
+                        with open(path, "wb") as f:
+                            f.write(data[:off] + (b"\0" * (len(data) - off) if zf else b""))
+                        first = classify(lambda: cache.get(id))
+                        exists = os.path.exists(path)
+                        second = classify(lambda: cls(loc).get(id))
+                        cases.append("(mkscase %s %s %s %s %s %s %s)" % (kind, cN(len(data)), cN(off), cbool(zf),
+                                                                      first, cbool(exists), second))
+                        meta.append((shape, nops, style, kind, pol, fn, len(data), off, zf, first, exists, second))
+                        ck.seen(("sweep", shape, nops, style, kind, pol, fn, off, zf), nontrivial=off < len(data))
+                        ck.count("sweep:%s:%s" % (kind, "wsdl" if fn.endswith("wsdl.px") else "document"))
+                with open(path, "wb") as f:
+                    f.write(data)
+            shutil.rmtree(loc, ignore_errors=True)
+    res = ck.run_cases("sweep", PRE, "scase", cases, ["c11_sweep_agrees", "c11_sweep_spec_ok"], shard=2500)
+    return meta, set(res["c11_sweep_agrees"]), set(res["c11_sweep_spec_ok"])
+
+
+# ---- client scenarios
+
+def scenario_members(ck):
+    if ck.tier == "thorough":
+        return [(sh, n, st) for sh in range(7) for n in (1, 2, 3) for st in ("doc", "rpc")]
+    return [(0, 1, "doc"), (0, 3, "rpc"), (1, 2, "doc"), (2, 3, "doc"), (3, 3, "doc"), (3, 2, "rpc"),
+            (4, 3, "doc"), (4, 1, "rpc"), (5, 2, "doc"), (5, 3, "rpc"), (6, 3, "doc")]
+
+
+def warms(kind, pol):
+    return (kind == "KPx" and pol in (0, 1)) or (kind == "KXml" and pol == 0)
+
+
+def gen_scenarios(ck, names):
+    rng = ck.rng
+    optnames = sorted(OPTSETS)
+    scs = []
+    for kind in ("KPx", "KXml"):
+        for pol in (0, 1):
+            a, b, c = rng.sample(optnames, 3)
+            if rng.random() < 0.5:
+                b = "nounwrap" if opt_unwrap(a) else "base"
+            scs.append(("cold-warm", [("client", kind, 100, pol, a), ("client", kind, 100, pol, b),
+                                      ("client", kind, 0, pol, c)]))
+    scs.append(("cold-warm", [("client", "KPx", 0, 2, "base"), ("client", "KPx", 0, 2, "base")]))
+    entry_names = [n for n in names if n != "version"]
+    for _ in range(10 if ck.tier == "thorough" else 6):
+        sc = []
+        kind = rng.choice(("KPx", "KPx", "KXml"))
+        pol = rng.choice((0, 1))
+        for _ in range(rng.randint(3, 6)):
+            r = rng.random()
+            if r < 0.55 or not sc:
+                if rng.random() < 0.25:
+                    kind = rng.choice(("KPx", "KXml"))
+                if rng.random() < 0.25:
+                    pol = rng.choice((0, 1, 1, 2))
+                sc.append(("client", kind, rng.choice((0, 100, 100)), pol, rng.choice(optnames)))
+            elif r < 0.75:
+                sc.append(("plant", rng.choice(entry_names), rng.choice((0, 1, 17, 10 ** 6)), rng.random() < 0.5))
+            elif r < 0.87:
+                sc.append(("remove", rng.choice(entry_names)))
+            else:
+                sc.append(("advance", rng.choice((50, 100, 101, 500))))
+        if sc[-1][0] != "client":
+            sc.append(("client", kind, 100, pol, rng.choice(optnames)))
+        scs.append(("random", sc))
+    return scs
+
+
+KEY_NONE = "C11:warm-object-cache-wsdl-import-of-xsd"
+KEY_STALE = "C11:warm-object-cache-keeps-unwrap-of-cached-build"
+WHAT_NONE = ("a second Client(...) over a warm ObjectCache with cachingpolicy=1 raises AttributeError "
+             "('NoneType' object has no attribute 'options') in DefinitionsReader.open when the WSDL has a "
+             "wsdl:import whose target is an XSD schema (imp.imported is None)")
+WHAT_STALE = ("a Client(..., unwrap=U) built over a warm ObjectCache with cachingpolicy=1 keeps the wrapped/bare "
+              "decision of the client that filled the cache (body.wrapped is pickled, never recomputed), so it "
+              "builds other requests than an uncached Client(..., unwrap=U)")
+
+
+def flipped_ref(member, optname, refs):
+    key = optname + "~flipped-unwrap"
+    if key not in refs:
+        saved = OPTSETS[optname]
+        OPTSETS[key] = dict(saved, unwrap=not opt_unwrap(optname))
+        try:
+            refs[key] = build_client(member, None, None, 0, 0, key)
+        finally:
+            del OPTSETS[key]
+    return refs[key]
+
+
+def bad_observations(member, imps, sc, observed, refs):
+    """Replicates the specification (Reader.v cobs_ok / cspec_run) to name the reason, and
+    explains reasons by the two known defect classes where they are the cause."""
+    warm = set()
+    bad = []
+    for idx, (op, (obs, _)) in enumerate(zip(sc, observed)):
+        if op[0] != "client":
+            warm = set()
+            continue
+        kind, pol, optname = op[1], op[3], op[4]
+        reasons = []
+        if obs["exc"] is not None:
+            reasons.append("raise")
+        else:
+            if not obs["options_current"]:
+                reasons.append("options")
+            if obs["wrapped"] != obs["ref_wrapped"]:
+                reasons.append("wrapped")
+            if not obs["fp_same"]:
+                reasons.append("behaviour")
+            if obs["reply_cached"]:
+                reasons.append("reply-cached")
+        if obs["transport"]:
+            reasons.append("transport")
+        if (kind, pol) in warm and obs["fetched"]:
+            reasons.append("fetch")
+        if reasons:
+            klass = None
+            if (reasons == ["raise"] and kind == "KPx" and pol == 1 and not obs["fetched"] and False in imps
+                    and obs["exc"].startswith("AttributeError") and "'NoneType'" in obs["exc"]
+                    and "options" in obs["exc"]):
+                klass = KEY_NONE
+            elif (set(reasons) <= {"wrapped", "behaviour"} and kind == "KPx" and pol == 1 and not obs["fetched"]
+                  and obs["wrapped"] != obs["ref_wrapped"]
+                  and obs["fp"] == flipped_ref(member, optname, refs)["fp"]):
+                klass = KEY_STALE
+            bad.append((idx, reasons, klass))
+        if warms(kind, pol):
+            warm.add((kind, pol))
+    return bad
+
+
+GENERIC = {
+    "raise": ("C11:client-over-cache-raises", "building a client over a cache directory raises"),
+    "options": ("C11:cached-wsdl-keeps-foreign-options", "a cached WSDL object (or an imported one) is not bound to "
+                "the options of the client being built"),
+    "wrapped": ("C11:client-over-cache-differs-from-uncached", "a client built over a cache does not behave like "
+                "the same client built with no cache"),
+    "behaviour": ("C11:client-over-cache-differs-from-uncached", "a client built over a cache does not behave like "
+                  "the same client built with no cache (operations, types, factory objects, requests or decoded "
+                  "replies differ)"),
+    "reply-cached": ("C11:invocation-touches-cache", "invoking a service touched the cache or changed the cache "
+                     "directory"),
+    "transport": ("C11:client-over-cache-uses-transport", "a document was requested from the transport"),
+    "fetch": ("C11:warm-client-fetches", "a client built over a warm cache fetched documents"),
+}
+
+
+def strip_obs(observed):
+    out = []
+    for obs, lst in observed:
+        if obs is not None:
+            obs = dict((k, v) for k, v in obs.items() if k not in ("fp", "client"))
+        out.append([obs, lst])
+    return out
+
+
+def probe_quirks(ck, version):
+    """Which variant of DefinitionsReader.open the implementation is (minimal witnesses)."""
+    q = []
+    for shape, second, test in ((5, "base", lambda o: o["exc"] is not None and "NoneType" in o["exc"]),
+                                (0, "nounwrap", lambda o: o["exc"] is None and o["wrapped"] != o["ref_wrapped"])):
+        docs, ops, tns_types = family_member(shape, 1, "doc")
+        member = (docs, ops, "doc", tns_types)
+        loc = os.path.join(ROOT, "probe%d" % shape, "cache")
+        sc = [("client", "KPx", 0, 1, "base"), ("client", "KPx", 0, 1, second)]
+        observed = run_scenario(member, sc, loc, {})
+        shutil.rmtree(os.path.dirname(loc), ignore_errors=True)
+        hit = bool(test(observed[1][0]))
+        q.append(hit)
+        if hit:
+            ck.failing_input(KEY_NONE if shape == 5 else KEY_STALE, WHAT_NONE if shape == 5 else WHAT_STALE,
+                             {"kind": "scenario", "member": [shape, 1, "doc"], "scenario": sc,
+                              "observed": strip_obs(observed),
+                              "how": "two Client('suds://main.wsdl', cache=ObjectCache(dir), cachingpolicy=1, ...) "
+                                     "in a row over the same directory; documents from family_member(shape,1,'doc')"})
+    return tuple(q)
+
+
+def check_clients(ck, version):
+    quirks = probe_quirks(ck, version)
+    ck.extra["reader_variant_probed"] = {"reattach_dereferences_schema_import": quirks[0],
+                                         "wrapped_flag_not_recomputed": quirks[1]}
+    terms, keep = [], []
+    k = 0
+    for (shape, nops, style) in scenario_members(ck):
+        docs, ops, tns_types = family_member(shape, nops, style, extra=ck.rng.randrange(3))
+        member = (docs, ops, style, tns_types)
+        ref, urls, ids, md5, imps, opened = url_table(member)
+        unw = build_client(member, None, None, 0, 0, "base")
+        docstyle = unw["wrapped"]
+        names = scenario_names(urls, md5)
+        info = (ref, urls, ids, md5, imps, opened, docstyle, names)
+        refs = {}
+        for group, sc in gen_scenarios(ck, names):
+            loc = os.path.join(ROOT, "c%d" % k, "cache")
+            k += 1
+            observed = run_scenario(member, sc, loc, refs)
+            shutil.rmtree(os.path.dirname(loc), ignore_errors=True)
+            terms.append(c_ccase(version, info, quirks, sc, observed))
+            bad = bad_observations(member, imps, sc, observed, refs)
+            keep.append(((shape, nops, style), sc, observed, bad))
+            nclients = [o for o in sc if o[0] == "client"]
+            warmhit = any(obs is not None and obs["exc"] is None and not obs["fetched"] for obs, _ in observed)
+            ck.seen(("scenario", shape, nops, style, tuple(sc)), nontrivial=warmhit)
+            ck.count("scenario:" + group)
+            ck.count("scenario-clients", len(nclients))
+            for op, (obs, _) in zip(sc, observed):
+                if obs is not None:
+                    ck.count("client:%s/policy%d:%s" % (op[1], op[3], "raised" if obs["exc"] else
+                                                        "fetched" if obs["fetched"] else "nothing-fetched"))
+    i = len(keep) // 2
+    ck.sample({"documents": keep[i][0], "scenario": [list(map(str, o)) for o in keep[i][1]],
+               "observed": [None if o is None else {"fetched": o["fetched"], "raised": o["exc"],
+                                                   "same_as_uncached": o["fp_same"]} for o, _ in keep[i][2]]})
+    res = ck.run_cases("clients", CPRE, "ccase", terms, ["c11_client_agrees", "c11_client_spec_ok"], shard=60)
+    return keep, set(res["c11_client_agrees"]), set(res["c11_client_spec_ok"])
+
+
+# ---- real processes (thorough tier)
+
+def _hammer_worker(args):
+    import random
+    import suds.cache
+    loc, kind, seed, nops = args
+    rng = random.Random(seed)
+    objects = make_objects()
+    cls = {"KXml": suds.cache.DocumentCache, "KPx": suds.cache.ObjectCache}[kind]
+    cache = cls(loc)
+    bad = []
+    counts = {"hit": 0, "none": 0}
+    for _ in range(nops):
+        r = rng.random()
+        id = rng.choice(IDS)
+        try:
+            if r < 0.4:
+                cache.put(id, objects[kind][rng.randrange(3)])
+            elif r < 0.9:
+                got = cache.get(id)
+                if got is None:
+                    counts["none"] += 1
+                elif obj_index(kind, objects, got) == 99:
+                    bad.append(("other", id))
+                else:
+                    counts["hit"] += 1
+            elif r < 0.97:
+                cache.purge(id)
+            else:
+                try:
+                    cache.clear()
+                except OSError:
+                    pass        # two clears racing: not a lookup
+        except Exception as e:
+            bad.append(("raised", repr(e)))
+    return bad, counts
+
+
+def check_hammer(ck):
+    import multiprocessing
+    ctx = multiprocessing.get_context("fork")
+    for nproc in (4, 8, 16):
+        for kind in ("KXml", "KPx"):
+            loc = os.path.join(ROOT, "hammer%d%s" % (nproc, kind))
+            os.makedirs(loc)
+            with ctx.Pool(nproc) as pool:
+                results = pool.map(_hammer_worker, [(loc, kind, ck.seed * 100 + j, 400) for j in range(nproc)])
+            shutil.rmtree(loc, ignore_errors=True)
+            for bad, counts in results:
+                ck.count("hammer:%s:hit" % kind, counts["hit"])
+                ck.count("hammer:%s:none" % kind, counts["none"])
+                ck.seen(("hammer", nproc, kind, counts["hit"]), nontrivial=counts["hit"] > 0)
+                if bad:
+                    ck.failing_input("C11:concurrent-lookup-" + bad[0][0],
+                                     "with %d processes sharing a %s directory a lookup %s" % (
+                                         nproc, kind, "returned an object nobody stored" if bad[0][0] == "other"
+                                         else "raised " + str(bad[0][1])),
+                                     {"kind": "hammer", "nproc": nproc, "cache": kind, "bad": bad[:5]})
+
+
+# ---------------------------------------------------------------------------
+# the check
+# ---------------------------------------------------------------------------
+
+def describe_history(ops):
+    return "; ".join(" ".join(str(x) for x in o[:5]) for o in ops)
+
+
+def classify_history(ops, obs):
+    for o, (r, _) in zip(ops, obs):
+        if r == "RRaise":
+            return "C11:cache-%s-raises" % o[0], "a cache operation raised (%s)" % " ".join(map(str, o[:5]))
+    return ("C11:lookup-returns-other-than-latest-fresh-store",
+            "a lookup returned an object that is not the most recent fresh one stored under that id")
+
+
+def run(ck):
+    common.force_repo_path()
+    logging.disable(logging.CRITICAL)
+    import suds
+    import suds.client      # noqa: F401  (completes the package: suds.metrics etc.)
+    version = suds.__version__
+    shutil.rmtree(ROOT, ignore_errors=True)
+    os.makedirs(ROOT)
+    try:
+        _run(ck, version)
+    finally:
+        shutil.rmtree(ROOT, ignore_errors=True)
+
+
+def _run(ck, version):
+    ck.trusted = [
+        "Coq 8.16.1 kernel + vm_compute (correspondence evaluation); no native_compute",
+        "correspondence harness harness/c11.py: shims for suds.cache's os.path.getctime / datetime.now / "
+        "open (logical clock, fault and crash injection), object interning by value, recording "
+        "DocumentStore/Transport/cache subclasses, expat infoset of the requests",
+        "modelled, not verified: the kernel's file semantics (ctime = time of the last open for writing, "
+        "in-place truncation, one write), pickle and the SAX parser as deser (hypotheses H1/H2 of the theorems, "
+        "validated by the torn-write sweep for the generated family), md5, real multi-process timing",
+    ]
+    ck.notes = [
+        "warm_equals_cold (a client over a warm cache behaves like an uncached one) is about pickling a Python "
+        "object graph: decided by correspondence only (behavioural fingerprint), not proved in Coq; proved are "
+        "the cache refinement, the reader logic (policy switch, no fetch when warm, options re-attachment)",
+        "file content is compared through its effect (what get returns, which files exist), not byte by byte; "
+        "in the correspondence instance an object is a 5-byte frame and a real torn offset is mapped to min(n,4)",
+        "the raw FileCache (suffix gcf) has no format: the theorems cover it only in histories without torn "
+        "writes through it (hist_ok); a FileCache given to Client(cache=...) is outside the check",
+        "a foreign writer (other suds version) is followed by new cache instances (the version stamp is only "
+        "checked by FileCache.__init__); live instances are not protected and the theorem does not claim it",
+        "FileCache.__init__ raises when the location cannot be created/listed; clear() raises when another "
+        "process removes a listed file first: neither is a lookup, not flagged",
+    ]
+    proof_ok = ck.prove(THEOREMS) if THEOREMS else True
+    objects = make_objects()
+
+    # 1. histories
+    keep, bad_model, bad_spec = check_histories(ck, objects, version)
+    for i in sorted(bad_spec, key=lambda i: len(keep[i][1]))[:1]:
+        group, ops, obs = keep[i]
+        key, what = classify_history(ops, obs)
+        ck.failing_input(key, "%s: %s" % (what, describe_history(ops)),
+                         {"kind": "history", "ops": ops, "observed": obs})
+    unproved = []
+    only_model = sorted(bad_model - bad_spec, key=lambda i: len(keep[i][1]))
+    if only_model:
+        group, ops, obs = keep[only_model[0]]
+        unproved.append(("cache histories: " + describe_history(ops),
+                         {"kind": "history", "ops": ops, "observed": obs, "model_disagreements": len(only_model)}))
+
+    ck.extra["phase_seconds"] = {"proof+histories": round(__import__("time").time() - ck.t0, 1)}
+    # 2. torn-write sweep
+    meta, sw_model, sw_spec = check_sweep(ck)
+    for i in sorted(sw_spec)[:1]:
+        m = meta[i]
+        what = ("raised" if "SRaised" in (m[9], m[11]) else
+                "returned a partial/different object" if "SOther" in (m[9], m[11]) else
+                "left the damaged file in place" if m[10] else "did not return the intact entry consistently")
+        key = ("C11:torn-entry-lookup-raises" if "SRaised" in (m[9], m[11]) else
+               "C11:torn-entry-yields-object" if "SOther" in (m[9], m[11]) or "SSame" in (m[9], m[11]) else
+               "C11:torn-entry-not-removed")
+        ck.failing_input(key, "lookup of a cached %s entry (%s, %d bytes) cut at byte %d%s %s" % (
+            m[3], m[5], m[6], m[7], " with a zero-filled tail" if m[8] else "", what),
+            {"kind": "sweep", "member": list(m[:3]), "cache": m[3], "policy": m[4], "file": m[5], "offset": m[7],
+             "zero_fill": m[8], "observed": list(m[9:])})
+    if sw_model - sw_spec:
+        m = meta[sorted(sw_model - sw_spec)[0]]
+        unproved.append(("torn-write sweep: %r" % (m,), {"kind": "sweep", "member": list(m[:3]), "cache": m[3],
+                                                        "policy": m[4], "file": m[5], "offset": m[7],
+                                                        "zero_fill": m[8], "observed": list(m[9:])}))
+
+    ck.extra["phase_seconds"]["sweep"] = round(__import__("time").time() - ck.t0, 1)
+    # 3. cold vs warm clients
+    ckeep, c_model, c_spec = check_clients(ck, version)
+    py_bad = set(i for i, kp in enumerate(ckeep) if kp[3])
+    if py_bad != c_spec:
+        raise RuntimeError("harness and Coq disagree about which scenarios meet the specification: %r"
+                           % sorted(py_bad ^ c_spec)[:5])
+    for i in sorted(c_spec, key=lambda i: len(ckeep[i][1])):
+        memberid, sc, observed, bad = ckeep[i]
+        for idx, reasons, klass in bad:
+            if klass is not None:
+                ck.failing_input(klass, WHAT_NONE if klass == KEY_NONE else WHAT_STALE, {})   # reported by the probe
+                ck.count("known-defect-scenarios:" + klass)
+                continue
+            key, what = GENERIC[reasons[0]]
+            ck.failing_input(key, "%s: documents family_member%r, scenario %s, client #%d (%s)" % (
+                what, tuple(memberid), [" ".join(map(str, o)) for o in sc], idx, ",".join(reasons)),
+                {"kind": "scenario", "member": list(memberid), "scenario": sc, "observed": strip_obs(observed),
+                 "bad": [[a, b, c] for a, b, c in bad]})
+    if c_model - c_spec or (c_model and not ck.violations):
+        rest = sorted(c_model - c_spec) or sorted(c_model)
+        memberid, sc, observed, bad = ckeep[rest[0]]
+        unproved.append(("client scenarios: family_member%r, %s" % (tuple(memberid), sc),
+                         {"kind": "scenario", "member": list(memberid), "scenario": sc,
+                          "observed": strip_obs(observed)}))
+    ck.extra["scenarios_failing_the_specification"] = len(c_spec)
+
+    ck.extra["phase_seconds"]["clients"] = round(__import__("time").time() - ck.t0, 1)
+    # 4. real processes
+    if ck.tier == "thorough":
+        check_hammer(ck)
+
+    ck.rule = ("(a) cache histories over real FileCache/DocumentCache/ObjectCache instances sharing a temp "
+               "directory, injected clock: every sequence of length 3 (thorough 4; 5 over a core alphabet) over "
+               "put/torn put/get/purge by two DocumentCache instances (durations 10, never) + clear, clock "
+               "advance to and past the duration, reopen, foreign-version directory; every sequence of length "
+               "2 (thorough 3) over a DocumentCache + an ObjectCache and two ids; random histories up to length "
+               "12 over 3 ids x up to 3 instances x 3 classes with open/read/write faults, crashes at a byte "
+               "offset with/without zero tail, version-file states; every result and the directory listing after "
+               "every operation compared with the model, every result checked against the specification.  "
+               "(b) torn-write sweep: entries written by real clients (DocumentCache documents, ObjectCache "
+               "pickled documents and pickled Definitions) cut at every byte offset (quick: every offset for the "
+               "small member, head/tail/stride/random offsets for the large one) with and without zero tail.  "
+               "(c) client scenarios: generated document graphs (7 import shapes x doc/rpc x 1-3 operations), "
+               "cold/warm x cache class x cachingpolicy {0,1,2} x changed options, entries torn/removed/expired in "
+               "between; fetch log, outcome, directory listing vs the model; behaviour (operations, types, "
+               "factory objects, requests as infosets with URL and SOAPAction, decoded replies) vs an uncached "
+               "client.  distinct = distinct history / (entry, offset, fill) / (documents, scenario); "
+               "non-trivial = some lookup hit / the entry really is cut / some client built without fetching")
+    ck.exhaustive = False
+    if not proof_ok:
+        ck.unproved("proof obligation of C11 no longer checks: " + ck.proof_log[-1500:],
+                    {"theorems": THEOREMS, "log": ck.proof_log[-3000:]})
+    for what, payload in unproved[:1]:
+        ck.unproved("model/implementation correspondence of C11 no longer holds (the observed run meets the "
+                    "executable specification but is not what the model the theorems are about does): " + what,
+                    payload)
+
+
+def replay(ck, payload):
+    common.force_repo_path()
+    logging.disable(logging.CRITICAL)
+    import suds
+    import suds.client      # noqa: F401
+    print(payload.get("what"))
+    shutil.rmtree(ROOT, ignore_errors=True)
+    os.makedirs(ROOT)
+    try:
+        kind = payload.get("kind")
+        if kind == "history":
+            ops = [tuple(tuple(x) if isinstance(x, list) and o[0] != "foreign" else x for x in o)
+                   for o in payload["ops"]]
+            ops = [o if o[0] != "foreign" else (o[0], o[1], [(n, (c[0], c[1].encode("latin-1") if c[0] == "raw"
+                                                                    and isinstance(c[1], str) else c[1]) + tuple(c[2:]))
+                                                               for n, c in o[2]]) for o in ops]
+            objects = make_objects()
+            obs = run_history(ops, objects, os.path.join(ROOT, "replay", "cache"), suds.__version__)
+            for o, (r, pres) in zip(ops, obs):
+                print("  %-60s -> %s   files: %s" % (" ".join(map(str, o[:5])), r,
+                                                     [n for n, b in zip(OBSERVED_NAMES, pres) if b]))
+        elif kind == "scenario":
+            shape, nops, style = payload["member"]
+            docs, ops, tns_types = family_member(shape, nops, style)
+            member = (docs, ops, style, tns_types)
+            sc = [tuple(o) for o in payload["scenario"]]
+            observed = run_scenario(member, sc, os.path.join(ROOT, "replay", "cache"), {})
+            for o, (obs, lst) in zip(sc, observed):
+                print("  %s" % (o,))
+                if obs is not None:
+                    print("      fetched %s; raised %s; options current %s; wrapped %s (uncached: %s); behaves like "
+                          "the uncached client: %s; invocations touched the cache: %s" % (
+                              obs["fetched"], obs["exc"], obs["options_current"], obs["wrapped"], obs["ref_wrapped"],
+                              obs["fp_same"], obs["reply_cached"]))
+                print("      directory: %s" % lst)
+        elif kind == "sweep":
+            import suds.cache
+            shape, nops, style = payload["member"]
+            docs, ops, tns_types = family_member(shape, nops, style)
+            loc = os.path.join(ROOT, "replay")
+            build_client((docs, ops, style, tns_types), loc, payload["cache"], 0, payload["policy"], "base")
+            path = os.path.join(loc, payload["file"])
+            data = open(path, "rb").read()
+            off = payload["offset"]
+            with open(path, "wb") as f:
+                f.write(data[:off] + (b"\0" * (len(data) - off) if payload["zero_fill"] else b""))
+            cls = suds.cache.ObjectCache if payload["cache"] == "KPx" else suds.cache.DocumentCache
+            id = payload["file"][5:].rsplit(".", 1)[0]
+            try:
+                got = cls(loc).get(id)
+                print("  get ->", type(got).__name__ if got is not None else None)
+            except Exception as e:
+                print("  get raised", repr(e))
+            print("  file still there:", os.path.exists(path))
+        else:
+            print("  (nothing to re-run for this payload)")
+    finally:
+        shutil.rmtree(ROOT, ignore_errors=True)
+    return 0
